@@ -93,6 +93,9 @@ class TypeScriptMagicNumberAnalyzer(TypeScriptBaseAnalyzer):  # thailint: ignore
             # Prefixed literals are integers even when a hex digit happens to be "e" (0xFE)
             if lowered.startswith(("0x", "0o", "0b")):
                 return int(text, 0)
+            # Legacy octal of sloppy-mode JavaScript (017 is 15) and its decimal look-alike (089 is 89)
+            if len(text) > 1 and text[0] == "0" and text.isdigit():
+                return int(text, 8) if set(text) <= set("01234567") else int(text)
             # Try int first
             if "." not in text and "e" not in lowered:
                 return int(text, 0)  # Handles hex, octal, binary
